@@ -431,3 +431,12 @@ Proof.
   destruct (H 2 ltac:(vm_compute; split; congruence)) as (i & j & ed & Hp & He & Hce & _).
   vm_compute in Hp. inv_ok. vm_compute in He, Hce. congruence.
 Qed.
+
+(** the guard of [polygon_contract] is satisfiable: a shell with a hole, and the full polygon *)
+Example polygon_wf_examples :
+  polygon_wf [mkLoop [1; 2; 3] false 0; mkLoop [4; 5; 6] false 1] /\ polygon_wf [mkLoop [9] true 0].
+Proof.
+  split.
+  - right. repeat constructor; cbn; lia.
+  - left. reflexivity.
+Qed.
